@@ -281,7 +281,7 @@ class _Guards:
             # a rewrite moved statements into new blocks: give those a turn too
             self._block(block, kind, _again=False)
 
-    def _block_once(self, block, kind):
+    def _block_once(self, block, kind, _depth=0):
         # recurse first
         for s in block:
             if isinstance(s, _FUNCS):
@@ -301,10 +301,13 @@ class _Guards:
                 # leaving the body of a `with` that is the last statement of the block is leaving the block (through __exit__ either way)
                 self._block(s.body, kind if s is block[-1] else None)
             elif isinstance(s, ast.Try):
-                self._block(s.body, None)
+                # a try in tail position: falling off a handler (or the else part, or the body when there is no else part) leaves the
+                # block, through the finally either way - the same as `continue` / a bare `return` there
+                tk = kind if (s is block[-1] and kind in ("continue", "return")) else None
+                self._block(s.body, tk if not s.orelse else None)
                 for h in s.handlers:
-                    self._block(h.body, None)
-                self._block(s.orelse, None)
+                    self._block(h.body, tk)
+                self._block(s.orelse, tk)
                 self._block(s.finalbody, None)
         changed = True
         while changed:
@@ -388,7 +391,6 @@ class _Guards:
             s = block[-1]
             t_pos, t_neg = nnf_text(s.test), nnf_text(s.test, True)
             if t_pos not in self.known_ifelse and t_neg not in self.known_ifelse \
-                    and not (len(s.orelse) == 1 and isinstance(s.orelse[0], ast.If)) \
                     and not any(isinstance(x, ast.NamedExpr) for x in ast.walk(s.test)):
                 term = ast.Continue() if kind == "continue" else ast.Return(value=None)
                 if t_pos in self.known:
@@ -401,6 +403,9 @@ class _Guards:
                     guard_body = list(first) + ([] if _terminal(first) else [ast.copy_location(term, s)])
                     block[-1:] = [ast.copy_location(ast.If(test=test, body=guard_body, orelse=[]), s)] + list(rest)
                     self.n += 1
+                    if _depth < 12:
+                        self._block_once(block, kind, _depth + 1)  # the rest (an elif chain) is the new tail
+                        return
         self._merge_split(block)
 
     def _merge_split(self, block):
@@ -1099,6 +1104,35 @@ _STABLE_BUILTINS = ("id", "type", "isinstance")  # results depend only on the id
 _VALUE_BUILTINS = ("int", "float", "str", "bool", "len", "abs", "min", "max", "repr", "round", "tuple", "frozenset")
 
 
+# attribute names that are assigned (on any receiver) somewhere in the package outside an `__init__`: set by the loader before any
+# module is normalised.  `x = self.attr` for an attribute NOT in this set is an alias of a reference that never changes after
+# construction, so reading `self.attr` later gives the same object whatever was called in between.
+REBOUND_ATTRS: set | None = None
+
+
+def collect_rebound_attrs(trees) -> set:
+    out = set()
+    for tree in trees:
+        def rec(node, in_init):
+            for c in ast.iter_child_nodes(node):
+                if isinstance(c, _FUNCS):
+                    rec(c, in_init or c.name == "__init__")
+                    continue
+                if isinstance(c, ast.Attribute) and isinstance(c.ctx, (ast.Store, ast.Del)) and not in_init:
+                    out.add(c.attr)
+                rec(c, in_init)
+        rec(tree, False)
+    return out
+
+
+_CUR_MODULE_USES_SETATTR = True  # set per module by normalise_temporaries: a module that calls setattr / delattr gets no alias reasoning
+
+
+def _stable_attr_alias(e) -> bool:
+    return REBOUND_ATTRS is not None and not _CUR_MODULE_USES_SETATTR and isinstance(e, ast.Attribute) and isinstance(e.value, ast.Name) \
+        and e.value.id == "self" and e.attr not in REBOUND_ATTRS
+
+
 def _pure(e) -> bool:
     """evaluating the expression again gives an equal, interchangeable value and has no effect: no call (but a few builtins on pure
     arguments), no await / yield, and no display that creates a NEW mutable object each time ([] {} set / list / dict comprehensions)"""
@@ -1381,7 +1415,12 @@ def substitute_new_temporaries(fn, known_locals: set[str]) -> int:
                     nxt = block[i + 1]
                     in_next = _loads(nxt, v)
                     done = False
-                    heap = any(isinstance(x, (ast.Attribute, ast.Subscript)) for x in ast.walk(st.value))
+                    # anything but a plain name / constant (or a tuple of those) is computed FROM objects that a call in between may
+                    # mutate (`n = len(cache); cache.append(x); n`): such a value may only be used before anything with an effect runs
+                    def _plain(e):
+                        return isinstance(e, (ast.Name, ast.Constant)) or (isinstance(e, ast.Tuple) and all(_plain(x) for x in e.elts)) or \
+                            (isinstance(e, ast.UnaryOp) and isinstance(e.operand, ast.Constant))
+                    heap = not (_plain(st.value) or _stable_attr_alias(st.value))
                     if len(all_loads) == 1 and len(in_next) == 1 and (_whole_value(nxt, in_next[0]) or (_pure(st.value) and not heap) or _used_before_any_effect(nxt, in_next[0])
                                                                         or (_pure(st.value) and _reads_before_effects([nxt], v))) and not isinstance(nxt, _FUNCS):
                         _replace_node(nxt, in_next[0], st.value)
@@ -1654,6 +1693,9 @@ def normalise_temporaries(tree: ast.Module, modname: str) -> int:
     """phase 1b (after a first renaming pass, so that merely renamed locals are not mistaken for new temporaries)"""
     from . import alpha
 
+    global _CUR_MODULE_USES_SETATTR
+    _CUR_MODULE_USES_SETATTR = any(isinstance(c, ast.Call) and isinstance(c.func, ast.Name) and c.func.id in ("setattr", "delattr", "vars") for c in ast.walk(tree)) \
+        or any(isinstance(a, ast.Attribute) and a.attr == "__dict__" for a in ast.walk(tree))
     r = ref()
     locs = r.get("functions", {})
     n = 0
